@@ -168,7 +168,7 @@ func (w *raceWatch) fresh() string {
 func init() {
 	vc.Register(&vc.Check{
 		ID: "C18", Level: "model_checking", SingleProc: true,
-		Rule: "the scenario families of C06 (schedules), C09, C11, C12 and C13 are explored in the -race build: every schedule within the deviation bound (2 quick, 3 thorough) is executed under the Go race runtime, token hand-offs hidden (RaceDisable) and exactly the program's own happens-before edges re-created (channel send/receive/close, unbuffered rendezvous, sync.Once, go statement); " +
+		Rule: "the scenario families of C06 (schedules), C09, C11, C12 and C13 are explored in the -race build: every schedule within 2 deviations is executed under the Go race runtime (thorough: then again within 3 deviations as far as the time cap allows; deviation_bound_completed says what was finished for every scenario), token hand-offs hidden (RaceDisable) and exactly the program's own happens-before edges re-created (channel send/receive/close, unbuffered rendezvous, sync.Once, go statement); " +
 			"the idiom corpus (race-free idioms silent, seeded races reported) is run first as a self-test. Non-trivial = schedule with >=1 deviation",
 		Assumptions: []string{"the race runtime keeps 4 shadow cells per 8 bytes and de-duplicates reports by stack pair: a race can be missed, never invented",
 			"incidental synchronisation inside the standard library (sync.Pool in fmt) can hide a race in individual executions", "socket Read/Write/Close carry no happens-before edges (the net package documents none)"},
@@ -226,9 +226,6 @@ func c18Run(ctx *vc.Ctx, rep *vc.Report) {
 		w.off = int64(len(b)) // skip the self-test's seeded races
 	}
 	bound := 2
-	if ctx.Thorough() {
-		bound = 3
-	}
 	one := func(family, name string, scn any, mk func() (func(), any)) {
 		if ctx.Expired() || rep.TooMany() {
 			rep.Truncated = rep.Truncated || ctx.Expired()
@@ -259,34 +256,49 @@ func c18Run(ctx *vc.Ctx, rep *vc.Report) {
 			rep.Sample(map[string]any{"family": family, "scenario": name, "bound": bound})
 		}
 	}
-	p1 := "13800138000"
-	convs := []convScn{
-		{Name: "race:conv:reg-auth-hb", Conns: [][]tmsg{{{ID: 0x0100, Phone: p1, Serial: 1}, {ID: 0x0102, Phone: p1, Serial: 2}, {ID: 0x0002, Phone: p1, Serial: 3}}}, Close: true},
-		{Name: "race:conv:two-conns", Conns: [][]tmsg{{{ID: 0x0100, Phone: p1, Serial: 1}, {ID: 0x0002, Phone: p1, Serial: 2}}, {{ID: 0x0100, V2019: true, Phone: "13900139000", Serial: 1}, {ID: 0x0200, V2019: true, Phone: "13900139000", Serial: 2}}}},
+	runAll := func() {
+		p1 := "13800138000"
+		convs := []convScn{
+			{Name: "race:conv:reg-auth-hb", Conns: [][]tmsg{{{ID: 0x0100, Phone: p1, Serial: 1}, {ID: 0x0102, Phone: p1, Serial: 2}, {ID: 0x0002, Phone: p1, Serial: 3}}}, Close: true},
+			{Name: "race:conv:two-conns", Conns: [][]tmsg{{{ID: 0x0100, Phone: p1, Serial: 1}, {ID: 0x0002, Phone: p1, Serial: 2}}, {{ID: 0x0100, V2019: true, Phone: "13900139000", Serial: 1}, {ID: 0x0200, V2019: true, Phone: "13900139000", Serial: 2}}}},
+		}
+		// the server's own default handlers (shared-state hazards between connections live there)
+		convs = append(convs,
+			convScn{Name: "race:conv:plain-two-conns-auth", Plain: true, Conns: [][]tmsg{{{ID: 0x0102, Phone: p1, Serial: 1}, {ID: 0x0801, Phone: p1, Serial: 2}, {ID: 0x1212, Phone: p1, Serial: 3}}, {{ID: 0x0102, V2019: true, Phone: "13900139000", Serial: 1, Variant: 1}, {ID: 0x0801, V2019: true, Phone: "13900139000", Serial: 2, Variant: 1}, {ID: 0x1212, Phone: "13900139000", Serial: 3}}}},
+			convScn{Name: "race:conv:plain-two-conns-mixed", Plain: true, Conns: [][]tmsg{{{ID: 0x0100, Phone: p1, Serial: 1}, {ID: 0x0200, Phone: p1, Serial: 2}, {ID: 0x0704, Phone: p1, Serial: 3}}, {{ID: 0x0100, Phone: "13900139000", Serial: 1}, {ID: 0x0200, Phone: "13900139000", Serial: 2}, {ID: 0x0704, Phone: "13900139000", Serial: 3}}}, Close: true},
+		)
+		for _, s := range c09Scenarios(false) {
+			s.Stab = false
+			s.Name = "race:" + s.Name
+			convs = append(convs, s)
+		}
+		for _, s := range convs {
+			one("conv", s.Name, s, convMake(s))
+		}
+		for _, s := range c12Scenarios(false) {
+			if s.HoldUntilOnline {
+				continue // 65536-frame preamble: too slow under the race runtime, nothing new to race on
+			}
+			s.Name = "race:" + s.Name
+			one("cmd", s.Name, s, cmdMake(s))
+		}
+		for _, s := range c13Scenarios(false) {
+			s.Name = "race:" + s.Name
+			one("cmd", s.Name, s, cmdMake(s))
+		}
+		for _, s := range c11Scenarios(false) {
+			s.Name = "race:" + s.Name
+			one("reg", s.Name, s, regMake(s))
+		}
 	}
-	// the server's own default handlers (shared-state hazards between connections live there)
-	convs = append(convs,
-		convScn{Name: "race:conv:plain-two-conns-auth", Plain: true, Conns: [][]tmsg{{{ID: 0x0102, Phone: p1, Serial: 1}, {ID: 0x0801, Phone: p1, Serial: 2}, {ID: 0x1212, Phone: p1, Serial: 3}}, {{ID: 0x0102, V2019: true, Phone: "13900139000", Serial: 1, Variant: 1}, {ID: 0x0801, V2019: true, Phone: "13900139000", Serial: 2, Variant: 1}, {ID: 0x1212, Phone: "13900139000", Serial: 3}}}},
-		convScn{Name: "race:conv:plain-two-conns-mixed", Plain: true, Conns: [][]tmsg{{{ID: 0x0100, Phone: p1, Serial: 1}, {ID: 0x0200, Phone: p1, Serial: 2}, {ID: 0x0704, Phone: p1, Serial: 3}}, {{ID: 0x0100, Phone: "13900139000", Serial: 1}, {ID: 0x0200, Phone: "13900139000", Serial: 2}, {ID: 0x0704, Phone: "13900139000", Serial: 3}}}, Close: true},
-	)
-	for _, s := range c09Scenarios(false) {
-		s.Stab = false
-		s.Name = "race:" + s.Name
-		convs = append(convs, s)
-	}
-	for _, s := range convs {
-		one("conv", s.Name, s, convMake(s))
-	}
-	for _, s := range c12Scenarios(false) {
-		s.Name = "race:" + s.Name
-		one("cmd", s.Name, s, cmdMake(s))
-	}
-	for _, s := range c13Scenarios(false) {
-		s.Name = "race:" + s.Name
-		one("cmd", s.Name, s, cmdMake(s))
-	}
-	for _, s := range c11Scenarios(false) {
-		s.Name = "race:" + s.Name
-		one("reg", s.Name, s, regMake(s))
+	runAll()
+	if ctx.Thorough() && !rep.Truncated {
+		// everything is covered with 2 deviations; now again with 3, as far as the time cap allows
+		bound = 3
+		runAll()
+		if rep.Truncated {
+			rep.Bound = 2 // completed for every scenario; 3 only for a prefix of the list
+			rep.Count("bound_3_pass_truncated", 1)
+		}
 	}
 }
